@@ -1669,7 +1669,7 @@ type job struct {
 }
 
 func TestCheck(t *testing.T) {
-	r := vk.Start("C10", "model_checking", 110*time.Second, 19*time.Minute)
+	r := vk.Start("C10", "model_checking", 110*time.Second, 24*time.Minute)
 	debug.SetMaxStack(128 << 20) // a runaway recursion in the subject should die quickly
 	u := universe()
 	g := &global{r: r, s: newStats(), qbest: map[string]*queryCase{}, qcount: map[string]int64{}}
@@ -1776,7 +1776,7 @@ func TestCheck(t *testing.T) {
 	all8 := []int{0, 1, 2, 3, 4, 5, 6, 7}
 	// the whole universe at a smaller depth, six keys one level deeper
 	alphaFull := append(singleOps(all8, []int{0, 2}), persistOps()...)
-	deep := vk.Pick(r, []int{0, 1, 2, 4, 6}, []int{0, 1, 2, 4, 5, 6})
+	deep := []int{0, 1, 2, 4, 6} // both tiers: the thorough tier goes one level deeper instead of one key wider
 	alphaDeep := append(singleOps(deep, []int{0}), persistOps()...)
 	addSeq("A-full", mpt.ModeAll, alphaFull, vk.Pick(r, 3, 4))
 	addSeq("A-deep", mpt.ModeAll, alphaDeep, vk.Pick(r, 4, 5))
@@ -1794,14 +1794,17 @@ func TestCheck(t *testing.T) {
 			{K: "batch", Batch: []int8{2, 0, 3}}, // PutBatch{k1201=a,k1235=b}
 			{K: "flush"}, {K: "collapse", D: 0}, {K: "reload"},
 		}
-		if thorough {
-			alpha = append(alpha, opSpec{K: "batch", Batch: []int8{1, 2, 1}}, // PutBatch{k1201=del,k1234=a,k1235=del}
-				opSpec{K: "put", Key: 2, Val: 0}, opSpec{K: "del", Key: 2})
-		}
-		d := vk.Pick(r, 6, 6)
+		d := vk.Pick(r, 5, 6)
 		addSeqU(u3, "A-deep-gc", mpt.ModeGC, alpha, d)
 		addSeqU(u3, "A-deep-rc", mpt.ModeLatest, alpha, d)
 		addSeqU(u3, "A-deep-all", mpt.ModeAll, alpha, d-1)
+		if thorough {
+			// three more operations one level less deep (11^5 instead of 11^6 per mode keeps the tier exhaustive)
+			alpha11 := append(append([]opSpec{}, alpha...), opSpec{K: "batch", Batch: []int8{1, 2, 1}}, // PutBatch{k1201=del,k1234=a,k1235=del}
+				opSpec{K: "put", Key: 2, Val: 0}, opSpec{K: "del", Key: 2})
+			addSeqU(u3, "A-deep11-gc", mpt.ModeGC, alpha11, 5)
+			addSeqU(u3, "A-deep11-rc", mpt.ModeLatest, alpha11, 5)
+		}
 	}
 
 	// part B: base (puts only) x persistence step x batch
